@@ -53,7 +53,7 @@ func checkMain(args []string) {
 	tier := fs.String("tier", "quick", "quick or thorough")
 	verif := fs.String("verif", "/verif", "verification directory")
 	updateLedger := fs.Bool("update-ledger", false, "rewrite the obligation ledger from this run")
-	par := fs.Int("par", 8, "obligations in flight")
+	par := fs.Int("par", 5, "obligations in flight")
 	verbose := fs.Bool("v", false, "verbose")
 	fs.Parse(args)
 	if *prop == "" {
@@ -123,7 +123,11 @@ func checkMain(args []string) {
 			engineErrs = append(engineErrs, err.Error())
 		}
 	}
-	dischargeAll(append(append([]*Unit{}, units...), canaries...), dir, timeout, *par, solvers)
+	which := solvers[:3]
+	if *tier == "thorough" {
+		which = solvers
+	}
+	dischargeAll(append(append([]*Unit{}, units...), canaries...), dir, timeout, *par, which)
 
 	// canaries: the engine must refute what is false and prove what is true
 	for _, u := range canaries {
@@ -179,7 +183,7 @@ func checkMain(args []string) {
 			total++
 			n++
 			solverTime += o.timeS
-			if o.label != "" && (o.class == "post" || o.class == "inv-init" || o.class == "inv-preserve" || o.class == "variant") {
+			if o.label != "" && (o.class == "post" || o.class == "inv-init" || o.class == "inv-preserve" || o.class == "variant" || o.class == "assert") {
 				names = append(names, o.name)
 			}
 			if o.result == "proved" {
